@@ -17,9 +17,16 @@ def base_knobs(r, allow_faulty_io=True):
     k["strategy"] = r.choice([0, 1, 2, 3])
     k["stdio_buf"] = r.choice([512, 1024, 4096, 8192, 65536])
     if r.chance(50):
-        k["tmpdir"] = r.choice(["tmp", "scratch/t"])
+        k["tmpdir"] = r.choice(["tmp", "scratch/t", "tmp/", "scratch/a/b/t"])
     if r.chance(50):
-        k["tracedir"] = r.choice(["out/ovni", "a/b/ovni", "trace"])
+        k["tracedir"] = r.choice(["out/ovni", "a/b/ovni", "trace", "out/ovni/", "a/b/c/d/e/f/ovni", "./trace"])
+    if r.chance(8):
+        # an existing component of the trace (or temporary) directory is a symbolic link to a directory
+        k["symlinks"] = "lnk:real/deep"
+        if r.chance(60) or "tmpdir" not in k:
+            k["tracedir"] = r.choice(["lnk/ovni", "lnk/a/ovni"])
+        else:
+            k["tmpdir"] = "lnk/t"
     k["readdir"] = r.choice([0, 1, 2, 3 + r.below(1000)])
     if allow_faulty_io and r.chance(50):
         k["shortw_seed"] = 1 + (r.u64() >> 1)
